@@ -1,7 +1,9 @@
 """C11 -- operators obey the documented value algebra.
 TLC enumerates every operator application over the bounded value domain of ValuesMC.tla,
 checks the documented laws as invariants of the specification, and prints each tuple with the
-specified result; every tuple is replayed on the exported methods of types/value."""
+specified result; every tuple is replayed on the exported methods of types/value.  The operators are also
+exercised the way programs reach them -- through the compiler, in negated / assigned / parameter positions over
+special values (NaN, infinities, signed zero, nil) -- as sessions judged by CalcSem."""
 import json, subprocess
 import vlib
 
@@ -29,6 +31,9 @@ def run(tier, replay=None):
     ck.cov["exhaustive"] = True
     if replay:
         case = json.load(open(replay))["case"]
+        if "mismatch" not in case:
+            import semcheck
+            return semcheck.replay_file(ck, replay)
         mism, summary = replay_tuples([case["mismatch"]])
         for m in mism:
             ck.violation("operator tuple disagrees with CalcValues: %s" % json.dumps(m)[:400], m)
@@ -62,6 +67,12 @@ def run(tier, replay=None):
                              "int/float comparison above 2^53", "shift counts < 0 or > 14, logical shift of negatives"]
     for t in tuples[:: max(1, len(tuples) // 5)][:5]:
         ck.sample(t)
+    # the same algebra as the compiler builds it: sessions through the real pipeline, judged by CalcSem
+    import semcheck, props
+    fams = props.c11_families(tier, vlib.seed())
+    vs = semcheck.run_families(ck, fams, None)
+    semcheck.binding_selftest(ck, vs)
+    ck.cov["rule"] += "; session level: " + props.c11_rule
     for m in mism:
         t = m["mismatch"]
         ck.violation("%s(%s, %s, %s): specified %s, types/value gives %s" % (
